@@ -23,17 +23,17 @@ type Phase struct {
 
 // DriveOpts configures a check.
 type DriveOpts struct {
-	Public    string // property id as listed in properties.jsonl
-	Tier      string
-	Seed      uint64
-	Phases    []Phase
-	VerifDir  string
-	WallCap   time.Duration
-	Level     string
-	Real      []string
-	Stub      []string
-	Assume    []string
-	Rule      string
+	Public     string // property id as listed in properties.jsonl
+	Tier       string
+	Seed       uint64
+	Phases     []Phase
+	VerifDir   string
+	WallCap    time.Duration
+	Level      string
+	Real       []string
+	Stub       []string
+	Assume     []string
+	Rule       string
 	EvidenceTo string // default <VerifDir>/evidence/<Public>.json
 }
 
@@ -617,27 +617,27 @@ func writeEvidence(o *DriveOpts, outs []*phaseOut, nViol int, knownHits map[stri
 	}
 	tier := o.Tier
 	cov := map[string]any{
-		"evaluations":         results,
-		"planned_runs":        planned,
-		"distinct_nontrivial": len(nt),
+		"evaluations":                        results,
+		"planned_runs":                       planned,
+		"distinct_nontrivial":                len(nt),
 		"distinct_schedule_and_fault_traces": len(traces),
-		"rule":                o.Rule,
-		"samples":             samples,
-		"runs_per_hour":       int64(float64(results) / (wall + 1e-9) * 3600),
-		"seeds":               []uint64{o.Seed},
-		"simulated_time_s":    float64(simNs) / 1e9,
-		"simulated_steps":     steps,
-		"choices_drawn":       draws,
-		"faults_fired":        faults,
-		"probes":              probes,
-		"probes_at_zero":      zero,
-		"oracle_evaluations":  oracles,
-		"counters":            other,
-		"determinism_audit":   map[string]any{"runs_reexecuted_in_second_process": audited, "mismatches": 0},
-		"known_findings_hit":  knownHits,
-		"components_real":     o.Real,
-		"components_stub":     o.Stub,
-		"exhaustive":          false,
+		"rule":                               o.Rule,
+		"samples":                            samples,
+		"runs_per_hour":                      int64(float64(results) / (wall + 1e-9) * 3600),
+		"seeds":                              []uint64{o.Seed},
+		"simulated_time_s":                   float64(simNs) / 1e9,
+		"simulated_steps":                    steps,
+		"choices_drawn":                      draws,
+		"faults_fired":                       faults,
+		"probes":                             probes,
+		"probes_at_zero":                     zero,
+		"oracle_evaluations":                 oracles,
+		"counters":                           other,
+		"determinism_audit":                  map[string]any{"runs_reexecuted_in_second_process": audited, "mismatches": 0},
+		"known_findings_hit":                 knownHits,
+		"components_real":                    o.Real,
+		"components_stub":                    o.Stub,
+		"exhaustive":                         false,
 	}
 	ev := map[string]any{
 		"property_id": o.Public,
